@@ -345,12 +345,28 @@ def tiff_ref_unpredict(enc, colors, columns):
 
 
 # ------------------------------------------------------------------------------------------------ chains
-def encode_layer(f, data, variant=0):
-    """one codec layer; f in AHx A85 LZW Fl RL; variant picks among legal spellings of the encoding"""
+def ccf_encode(data, columns):
+    """CCITT Group 4 (/K -1) encoding of data taken as rows of `columns` pixels (columns a multiple of 8, so that
+    rows have no pad bits); uses the T.6 writer of C19 (self-checked there against its own symbol decoder)"""
+    from . import t6
+    if columns % 8 or len(data) % (columns // 8):
+        raise MachineryError("ccf_encode: %d bytes do not make rows of %d pixels" % (len(data), columns))
+    h = len(data) // (columns // 8)
+    rows = t6.unpack(data, columns, h, False)
+    syms = t6.encode(rows, columns, lambda o: o[0])
+    if t6.decode_syms(syms, columns) != [t6.changes(r) for r in rows]:
+        raise MachineryError("T.6 writer self-check failed in ccf_encode")
+    return t6.assemble([t6.bits_of_row(sy) for sy in syms], False)
+
+
+def encode_layer(f, data, variant=0, ec=1, columns=8):
+    """one codec layer; f in AHx A85 LZW Fl RL CCF; variant picks among legal spellings of the encoding"""
     if f == "Fl":
         return zlib.compress(data, (9, 1, 0)[variant % 3])
+    if f == "CCF":
+        return ccf_encode(data, columns)
     if f == "LZW":
-        return lzw_encode(data, extra_clears=(len(data) // 2,) if variant % 2 and len(data) > 2 else ())
+        return lzw_encode(data, extra_clears=(len(data) // 2,) if variant % 2 and len(data) > 2 else (), ec=ec)
     if f == "RL":
         return rl_encode(data, random.Random(variant) if variant % 2 else None)
     if f == "AHx":
